@@ -148,6 +148,11 @@ Next ==
            Iterate(kind, q, a, nearA, nearB)
 
 Spec == Init /\ [][Next]_vars
+\* C06 (liveness): under weak fairness of the loop every solve call returns
+FairSpec == Spec /\ WF_vars(TimeoutReturn) /\ WF_vars(\E kind \in {"g", "u"}, q \in Pts(T), a \in 1 .. 2 :
+        \E nearA \in 1 .. Len(trees[a]), nearB \in 1 .. (Len(trees[3 - a]) + 1) :
+           Iterate(kind, q, a, nearA, nearB))
+Terminates == []<>(pc = "idle")
 
 (***************************************************************************)
 (* Properties                                                              *)
